@@ -87,6 +87,8 @@ partial def stmtOf (j : Json) : Except String Stmt := do
     match (← str tag), rest with
     | "setup", [acc, ps] => return .setup (← str acc) (← listOf setupParam ps)
     | "launch", [acc, ps] => return .launch (← str acc) (← listOf pairOf ps)
+    | "launchg", [acc, ps, n, m, sh, mu] =>
+      return .launchG (← str acc) (← listOf pairOf ps) (← nat n) (← int m) (← listOf int sh) (← listOf int mu)
     | "await", [acc] => return .await (← str acc)
     | "op", [t, n] => return .op (← nat t) (← nat n)
     | "if", [t, n, th, el] => return .ifS (← nat t) (← listOf islotOf n) (← blockOf th) (← blockOf el)
@@ -101,6 +103,7 @@ end
 mutual
 partial def jCStmt : CStmt → Json
   | .csrw a v c l => Json.arr #[Json.str "csrw", jNat a, jNat v, Json.bool c, Json.bool l]
+  | .csrwC a c => Json.arr #[Json.str "csrwc", jNat a, jInt c]
   | .poll a => Json.arr #[Json.str "poll", jNat a]
   | .clear => Json.arr #[Json.str "clear"]
   | .nop => Json.arr #[Json.str "nop"]
@@ -117,6 +120,8 @@ def errName : Err → String
   | .noAcc => "Exception"
   | .keyError => "KeyError"
   | .assertLaunch => "AssertionError"
+  | .zeroDiv => "ZeroDivisionError"
+  | .valueError => "ValueError"
 
 def jErr (e : Err) : Json := Json.mkObj [("raised", Json.str (errName e))]
 
